@@ -183,6 +183,45 @@ func buildCatalogue() []deviation {
 			addCrit(m, envcodec.JAuthTime)
 		}
 	})
+	add("other-scheme-time-in-addition-zero-instant", false, jwsOnly, func(m *Model) {
+		// present is present, whatever instant it names
+		m.Set("othertime", `"0001-01-01T00:00:00Z"`, nil)
+		if m.Scheme != "notary.x509.signingAuthority" {
+			addCrit(m, envcodec.JAuthTime)
+		}
+	})
+	add("other-scheme-time-in-addition-zero-instant-zoned", false, jwsOnly, func(m *Model) {
+		m.Set("othertime", `"0001-01-01T01:00:00+01:00"`, nil)
+		if m.Scheme != "notary.x509.signingAuthority" {
+			addCrit(m, envcodec.JAuthTime)
+		}
+	})
+	// a signing time at which the chain's certificates did not exist yet: whether
+	// to trust such a signature is the caller's policy, the envelope is conformant
+	add("time-before-the-chain-existed", true, both, func(m *Model) {
+		t := time.Date(1995, 5, 5, 5, 5, 5, 0, time.UTC)
+		m.Set("time", jTime(t), cT1(t))
+	})
+	// COSE labels are case-sensitive: an upper-case twin of a time label is an
+	// extended attribute like any other, wherever it is encoded
+	add("cose-uppercase-twin-of-time-label-first", true, coseOnly, func(m *Model) {
+		k := envcodec.Tstr(strings.ToUpper(m.label("time")))
+		for _, kv := range m.COSE {
+			if string(kv.K) == string(k) {
+				return
+			}
+		}
+		m.COSE = append([]envcodec.KV{{K: k, V: cT1(st0.Add(-time.Hour))}}, m.COSE...)
+	})
+	add("cose-uppercase-twin-of-expiry-label-first", true, coseOnly, func(m *Model) {
+		k := envcodec.Tstr(strings.ToUpper(envcodec.CExpiry))
+		for _, kv := range m.COSE {
+			if string(kv.K) == string(k) {
+				return
+			}
+		}
+		m.COSE = append([]envcodec.KV{{K: k, V: cT1(st0.AddDate(9, 0, 0))}}, m.COSE...)
+	})
 	// --- expiry -------------------------------------------------------------------
 	add("expiry-before", false, both, func(m *Model) {
 		m.Set("expiry", jTime(st0.Add(-time.Hour)), cT1(st0.Add(-time.Hour)))
